@@ -21,12 +21,17 @@ pub enum Ev {
     Make,                  // make() -> own
     Peek(u32),             // peek(borrow t)
     ConsumeAll(u32, u32, usize), // consume-all(list of own): first two handles read from the list buffer, length
+    ConsumeHolder(u32, u32), // consume-holder(record { own t, n })
+    MaybeMake,             // maybe-make() -> option<own>
+    TryMake,               // try-make() -> result<own, u32>
+    PeekPair(u32, u32),    // peek-pair(tuple<borrow, u32>)
     ResNew(usize),         // [resource-new]counter(rep)
     ResRep(u32),           // [resource-rep]counter(handle)
 }
 pub static mut LOG: [Ev; NLOG] = [Ev::None; NLOG];
 pub static mut NLOGGED: usize = 0;
 pub static mut ANSWER: u32 = 0; // what the host returns from the next value-returning import
+pub static mut ANSWER_CASE: u8 = 0; // discriminant the host stores for option / result answers
 pub static mut REP_OF: (u32, usize) = (0, 0); // handle -> representation pointer, as recorded by [resource-new]
 fn log(e: Ev) {
     unsafe {
@@ -69,6 +74,23 @@ pub mod mockhost {
             log(Ev::ConsumeAll(h0, h1, len));
         }
     }
+    pub unsafe fn verif_res_imp__consume_holder(h: i32, n: i32) { log(Ev::ConsumeHolder(h as u32, n as u32)) }
+    /// option<own<thing>> / result<own<thing>, u32> through a return pointer: discriminant @0, payload @4
+    pub unsafe fn verif_res_imp__maybe_make(ret: *mut u8) {
+        log(Ev::MaybeMake);
+        unsafe {
+            *ret = ANSWER_CASE;
+            ret.add(4).cast::<u32>().write(ANSWER);
+        }
+    }
+    pub unsafe fn verif_res_imp__try_make(ret: *mut u8) {
+        log(Ev::TryMake);
+        unsafe {
+            *ret = ANSWER_CASE;
+            ret.add(4).cast::<u32>().write(ANSWER);
+        }
+    }
+    pub unsafe fn verif_res_imp__peek_pair(h: i32, n: i32) -> i32 { log(Ev::PeekPair(h as u32, n as u32)); unsafe { ANSWER as i32 } }
     pub unsafe fn _export_verif_res_exp___resource_drop_counter(h: i32) { log(Ev::DropCounter(h as u32)) }
     pub unsafe fn _export_verif_res_exp___resource_new_counter(rep: *mut u8) -> i32 {
         log(Ev::ResNew(rep as usize));
@@ -90,6 +112,10 @@ pub mod mockhost {
 pub static mut COUNTER_DROPS: u32 = 0;
 pub static mut LOOKED: u32 = 0;
 pub static mut TAKEN_HANDLE: u32 = 0;
+pub static mut LOGGED_WHEN_USER_RAN: usize = 0;
+pub static mut KEEP: bool = false; // whether `adopt` keeps the handle it was given
+pub static mut KEPT: Option<Thing> = None;
+pub static mut OPT_SEEN: (bool, u32) = (false, 0);
 pub struct MyCounter {
     pub v: u32,
 }
@@ -121,6 +147,45 @@ impl Guest for Impl {
     }
     fn give(v: u32) -> Counter {
         Counter::new(MyCounter { v })
+    }
+    fn use_thing(t: &Thing) -> u32 {
+        unsafe {
+            TAKEN_HANDLE = t.handle();
+            LOGGED_WHEN_USER_RAN = logged();
+        }
+        9
+    }
+    fn adopt(t: Thing) -> u32 {
+        unsafe {
+            TAKEN_HANDLE = t.handle();
+            if KEEP {
+                KEPT = Some(t); // ownership was given: the guest may keep the handle beyond the call
+            }
+        }
+        11
+    }
+    fn take_opt(c: Option<Counter>) -> u32 {
+        unsafe {
+            OPT_SEEN = match &c {
+                Some(c) => (true, c.handle()),
+                None => (false, 0),
+            };
+        }
+        13
+    }
+}
+
+// the second exported interface reaches `counter` through an alias; its functions only record that they ran (the representation pointer
+// arrives as a core i32, which is the whole pointer on wasm32 only, so it is not dereferenced here)
+pub static mut LOOKED_AGAIN: u32 = 0;
+impl exports::verif::res::exp2::Guest for Impl {
+    fn look_again(_c: CounterBorrow<'_>) -> u32 {
+        unsafe { LOOKED_AGAIN += 1 };
+        21
+    }
+    fn maybe_look(c: Option<CounterBorrow<'_>>) -> u32 {
+        unsafe { LOOKED_AGAIN += 1 };
+        c.is_some() as u32
     }
 }
 
@@ -324,5 +389,122 @@ mod proofs {
             kani::assert(logged() == 1, "nothing else crosses the boundary");
         }
         kani::cover!(two);
+    }
+
+    // ---- handles nested in aggregates (imports)
+    #[kani::proof]
+    pub fn c07_import_owned_handle_in_record_transferred_not_dropped() {
+        let h = any_handle();
+        let n: u32 = kani::any();
+        unsafe {
+            imp::consume_holder(imp::Holder { t: Thing::from_handle(h), n });
+        }
+        kani::assert(logged() == 1 && count(|e| *e == Ev::ConsumeHolder(h, n)) == 1, "an owned handle inside a record is passed exactly once and not dropped by the guest");
+    }
+    #[kani::proof]
+    pub fn c07_import_owned_handle_in_option_and_result_dropped_once() {
+        let h = any_handle();
+        let case: u8 = kani::any();
+        kani::assume(case < 2);
+        let via_result: bool = kani::any();
+        unsafe {
+            ANSWER = h;
+            ANSWER_CASE = case;
+            if via_result {
+                match imp::try_make() {
+                    Ok(t) => {
+                        kani::assert(case == 0 && t.handle() == h && logged() == 1, "ok(own) is owned by the new value");
+                        drop(t);
+                        kani::assert(logged() == 2 && count(|e| *e == Ev::DropThing(h)) == 1, "dropped exactly once with its value");
+                    }
+                    Err(e) => kani::assert(case == 1 && e == h && logged() == 1, "err(u32) is a number: no handle is created or dropped"),
+                }
+            } else {
+                match imp::maybe_make() {
+                    Some(t) => {
+                        kani::assert(case == 1 && t.handle() == h && logged() == 1, "some(own) is owned by the new value");
+                        drop(t);
+                        kani::assert(logged() == 2 && count(|e| *e == Ev::DropThing(h)) == 1, "dropped exactly once with its value");
+                    }
+                    None => kani::assert(case == 0 && logged() == 1, "none: no handle is created or dropped"),
+                }
+            }
+        }
+    }
+    #[kani::proof]
+    pub fn c07_import_borrowed_handle_in_tuple_never_dropped_by_the_call() {
+        let h = any_handle();
+        let n: u32 = kani::any();
+        unsafe {
+            let t = Thing::from_handle(h);
+            let _ = imp::peek_pair((&t, n));
+            kani::assert(logged() == 1 && count(|e| *e == Ev::PeekPair(h, n)) == 1 && t.handle() == h, "a borrowed handle inside a tuple is passed, not dropped; the caller still owns it");
+            drop(t);
+            kani::assert(logged() == 2 && count(|e| *e == Ev::DropThing(h)) == 1, "the owner drops it exactly once");
+        }
+    }
+
+    // ---- handles of the IMPORTED resource arriving at an export
+    /// A borrow of a resource this component does not implement arrives as a handle in the guest's table that is only lent for the
+    /// call: CanonicalABI.md requires the callee to have dropped it when the call returns (`exit_call` traps otherwise), and
+    /// never earlier than the user's code is done with it.  So "the guest never drops a borrow" here means: the USER never has to,
+    /// and the bindings release the lent handle exactly once, after the user function returned.
+    #[kani::proof]
+    pub fn c07_export_lent_borrow_of_imported_resource_released_once_after_the_call() {
+        let h = any_handle();
+        unsafe {
+            let r = exports::verif::res::exp::_export_use_thing_cabi::<Impl>(h as i32);
+            kani::assert(r == 9 && TAKEN_HANDLE == h, "the user function sees the lent handle");
+            kani::assert(LOGGED_WHEN_USER_RAN == 0, "nothing was released before or while the user function ran");
+            kani::assert(logged() == 1 && count(|e| *e == Ev::DropThing(h)) == 1, "the lent handle is released exactly once, after the user function returned");
+        }
+    }
+    #[kani::proof]
+    pub fn c07_export_owned_imported_resource_dropped_once_by_its_owner() {
+        let h = any_handle();
+        let keep: bool = kani::any();
+        unsafe {
+            KEEP = keep;
+            let r = exports::verif::res::exp::_export_adopt_cabi::<Impl>(h as i32);
+            kani::assert(r == 11 && TAKEN_HANDLE == h, "the user function receives the owned handle");
+            if KEEP {
+                kani::assert(logged() == 0, "a handle the user kept is not dropped by the bindings");
+                let t = KEPT.take().unwrap();
+                kani::assert(t.handle() == h, "it is still the same handle");
+                drop(t);
+            }
+            kani::assert(logged() == 1 && count(|e| *e == Ev::DropThing(h)) == 1, "dropped exactly once, when its Rust value is dropped");
+        }
+        kani::cover!(keep);
+        kani::cover!(!keep);
+    }
+    #[kani::proof]
+    pub fn c07_export_owned_handle_in_option_parameter() {
+        let h = any_handle();
+        let some: bool = kani::any();
+        unsafe {
+            let r = exports::verif::res::exp::_export_take_opt_cabi::<Impl>(some as i32, if some { h as i32 } else { 0 });
+            kani::assert(r == 13 && OPT_SEEN == (some, if some { h } else { 0 }), "the user function receives the option the host sent");
+            kani::assert(logged() == some as usize && count(|e| *e == Ev::DropCounter(h)) == some as usize, "some(own): dropped exactly once with its value; none: nothing is dropped");
+        }
+    }
+
+    /// A borrow of an EXPORTED resource is the representation itself, whatever name the resource is reached by (here through `use` in a
+    /// second exported interface): receiving one creates no handle, so the bindings must not call resource.drop or resource.rep on it.
+    #[kani::proof]
+    pub fn c07_export_borrow_of_exported_resource_through_alias_touches_no_handle() {
+        let rep: i32 = kani::any();
+        let some: bool = kani::any();
+        let plain: bool = kani::any();
+        unsafe {
+            if plain {
+                let r = exports::verif::res::exp2::_export_look_again_cabi::<Impl>(rep);
+                kani::assert(r == 21, "the user function ran");
+            } else {
+                let r = exports::verif::res::exp2::_export_maybe_look_cabi::<Impl>(some as i32, if some { rep } else { 0 });
+                kani::assert(r == some as i32, "the user function received the option the host sent");
+            }
+            kani::assert(LOOKED_AGAIN == 1 && logged() == 0, "no resource.drop, resource.rep or any other handle operation: the borrow is not a handle");
+        }
     }
 }
